@@ -3,7 +3,7 @@
   Property theorems over M-Core, for every valid parameter set (the notice period is validated to be
   positive by `Params.ValidateBasic`) and every operation sequence.
 -/
-import DymVerif.Lemmas.CoreRolesOut
+import DymVerif.Lemmas.CoreRolesS
 namespace DymVerif.C07
 open DymVerif DymVerif.Core
 
@@ -112,6 +112,38 @@ theorem proposer_change_classified (p : Params) (hp : 0 < p.noticePeriod) (ops :
         ((∃ a b d, o = .createSeq a id b d) ∨
          (∃ a v q, o = .optIn a v ∧ getSeq (run p ops) a = some q ∧ q.rollapp = id))) :=
   apply_classify (run_roles p hp ops) h hr hr' hne
+
+/-- **The successor is chosen when the notice expires, and only then.**  If an accepted operation
+    changes the successor of rollapp `id`, then either the slot was cleared (rotation completed, or
+    fork), or the operation is a begin-block at which the notice-queue entry of the rollapp's
+    proposer came due (its notice time `t` ≤ the new block time), and the new successor is the
+    proposer choice over the sequencers of that moment (the sentinel if there is no candidate). -/
+theorem successor_change_classified (p : Params) (hp : 0 < p.noticePeriod) (ops : List Op) (o : Op) (s' : St)
+    (id : Nat) (r r' : Rollapp) (h : apply (run p ops) o = .ok s')
+    (hr : getRa (run p ops) id = some r) (hr' : getRa s' id = some r') (hne : r'.successor ≠ r.successor) :
+    r'.successor = none ∨
+    ∃ dt t a q, o = .begin_ dt ∧ (t, a) ∈ (run p ops).nq ∧ t ≤ (run p ops).t + dt ∧
+      getSeq (run p ops) a = some q ∧ q.notice = some t ∧ q.rollapp = id ∧ r.proposer = some a ∧
+      r'.successor = choose s' id := by
+  have hroles := run_roles p hp ops
+  have hs : succOf (run p ops) id = some r.successor := succOf_get hr
+  have hs' : succOf s' id = some r'.successor := succOf_get hr'
+  by_cases hb : ∃ dt, o = .begin_ dt
+  · obtain ⟨dt, rfl⟩ := hb
+    simp only [apply] at h
+    injection h with h; subst h
+    rcases beginBlock_succ (run p ops) dt id with h1 | ⟨t, a, q0, hta, ht, hq0, hq0r, hc⟩
+    · rw [hs, hs'] at h1; injection h1 with h1; exact absurd h1 hne
+    · right
+      obtain ⟨q, r1, hq, hn, hr1, hp1⟩ := hroles.core.nq t a hta
+      rw [hq0] at hq; injection hq with hq; subst hq
+      rw [hq0r, hr] at hr1; injection hr1 with hr1; subst hr1
+      rw [hs'] at hc; injection hc with hc
+      exact ⟨dt, t, a, q0, rfl, hta, ht, hq0, hn, hq0r, hp1, hc⟩
+  · left
+    rcases apply_sclr hroles h (fun dt hc => hb ⟨dt, hc⟩) id with h1 | h1
+    · rw [hs, hs'] at h1; injection h1 with h1; exact absurd h1 hne
+    · rw [hs'] at h1; injection h1
 
 /-- **The choice is the highest-bonded potential proposer.**  In a reachable state, if the choice
     for rollapp `ra` is `a`, then `a` is a bonded, opted-in sequencer of `ra`, no bonded opted-in
